@@ -143,6 +143,8 @@ pub fn exec(case: &Value) -> Value {
         "seq" => {
             // composite distributions draw their components in order: compare with
             // scalar draws from a generator advanced by hand
+            // (a panic of the code under test is an observation: a = <<>>, b = <<0>> never agree)
+            let r = guard(|| {
             let st = unlimbs(&case["s"]);
             let (mut g1, mut g2) = (Xorshift64(st), Xorshift64(st));
             let f = Uniform(-2.0f32..3.0);
@@ -291,6 +293,9 @@ pub fn exec(case: &Value) -> Value {
             // the generators must also end in the same state
             a.push((g1.0 >> 34) as i64);
             b.push((g2.0 >> 34) as i64);
+            (a, b)
+            });
+            let (a, b) = r.unwrap_or((vec![], vec![0]));
             o.insert("a".into(), json!(a));
             o.insert("b".into(), json!(b));
         }
